@@ -278,7 +278,11 @@ func e1RunWordInner(sc e1Scen, word []sym, scratch string, props map[string]bool
 	if err != nil {
 		return nil, -1, fmt.Errorf("Start failed for %s: %v", sc.Cfg, err)
 	}
-	defer r.mi.m.Close()
+	defer func() {
+		if !r.closed { // Close is not specified to be callable twice
+			r.mi.m.Close()
+		}
+	}()
 	r.props = props
 	r.query = sc.Query
 	if h := e1Hooks[sc.Prop]; h != nil {
@@ -339,14 +343,19 @@ func e1RunWordInner(sc e1Scen, word []sym, scratch string, props map[string]bool
 						r.add("ALL", "fault-not-hit", "the injected storage fault at rotation %d was not hit", rotations)
 					}
 					r.faulted = true
-					r.observe()
-					r.checkStep()
+					if sc.Prop != "C07" { // C07 looks at Close only, not at what is served after the failed write
+						r.observe()
+						r.checkStep()
+					}
 					continue
 				}
 			}
 			if !r.apply(ws.unit(s)) && !r.faulted {
 				r.add("ALL", "write-error", "write %d (%s) failed: %s", r.writeErrAt, s, r.writeErr)
 				return r, i, nil
+			}
+			if r.faulted && sc.Prop == "C07" {
+				continue
 			}
 			after()
 			if len(r.viols) > 0 {
